@@ -3,7 +3,8 @@
 (* 20 kV ring b0-b1-b2 + 0.4 kV bus b3, line switches sA (line b0-b1 at b1) and sB (line b1-b2 at b1), so that  *)
 (* bus b1 is unsupplied iff both are open).                                                                      *)
 EXTENDS Integers, Sequences, FiniteSets, TLC
-Edits == {"toggleA", "toggleB", "load", "toggleG"}      \* toggleG: in_service of PV generator 0
+Edits == {"toggleA", "toggleB", "load", "toggleG", "toggleE"}      \* toggleG: in_service of PV generator 0; toggleE: of the only ext_grid
+                                                                   \* (without it the conversion stage of every calculation fails: no reference bus)
 Inits == {"auto", "flat", "dc", "results"}
 PFs   == {[op |-> "runpp", init |-> x] : x \in Inits} \cup {[op |-> "rundcpp", init |-> "-"]}
 Other == {[op |-> o, init |-> "-"] : o \in {"runopp", "calc_sc", "runpp_3ph"}}
@@ -11,11 +12,12 @@ Steps == {[op |-> e, init |-> "-"] : e \in Edits} \cup PFs \cup Other
 IsCalc(a) == a.op \notin Edits
 
 \* abstract element state of the net
-N0 == [sA |-> FALSE, sB |-> TRUE, lvl |-> 1, g |-> TRUE]      \* sA starts open: one toggle of sB isolates bus b1
+N0 == [sA |-> FALSE, sB |-> TRUE, lvl |-> 1, g |-> TRUE, e |-> TRUE]      \* sA starts open: one toggle of sB isolates bus b1
 Edit(n, a) == CASE a.op = "toggleA" -> [n EXCEPT !.sA = ~@]
                 [] a.op = "toggleB" -> [n EXCEPT !.sB = ~@]
                 [] a.op = "load"    -> [n EXCEPT !.lvl = 3 - @]
                 [] a.op = "toggleG" -> [n EXCEPT !.g = ~@]
+                [] a.op = "toggleE" -> [n EXCEPT !.e = ~@]
                 [] OTHER -> n
 Unsupplied(n) == IF ~n.sA /\ ~n.sB THEN {1} ELSE {}          \* bus b1 hangs on the two switched lines only
 Hamming(n, m) == (IF n.sA # m.sA THEN 1 ELSE 0) + (IF n.sB # m.sB THEN 1 ELSE 0)
@@ -23,8 +25,11 @@ Hamming(n, m) == (IF n.sA # m.sA THEN 1 ELSE 0) + (IF n.sB # m.sB THEN 1 ELSE 0)
 \* state: n = element state, res = element state the result tables were computed from ("none" if no power flow yet;
 \* only power-flow calculations write res_bus)
 S0 == [n |-> N0, has |-> FALSE, resn |-> N0]
+MustFail(n) == ~n.e                                          \* no reference bus: every calculation raises while converting
 Step(s, a) == IF ~IsCalc(a) THEN [s EXCEPT !.n = Edit(s.n, a)]
-              ELSE IF a \in PFs THEN [s EXCEPT !.has = TRUE, !.resn = s.n] ELSE s
+              ELSE IF a \in PFs /\ ~MustFail(s.n) THEN [s EXCEPT !.has = TRUE, !.resn = s.n]
+              ELSE IF a \in PFs THEN [s EXCEPT !.has = FALSE]      \* a failed power flow leaves no usable results behind
+              ELSE s
 RECURSIVE Run(_, _, _)
 Run(s, h, k) == IF k > Len(h) THEN s ELSE Run(Step(s, h[k]), h, k + 1)
 
